@@ -65,7 +65,7 @@ Theorem C19_bad_created_no_manifest :
   forall f tc fa s at_ o now s' r v,
     ann_get (created_key f) (o_ann o) = Some v -> rfc3339_ok v = false ->
     pack marshal H f tc fa s at_ o now = (s', r) ->
-    (exists e, r = Err e /\ (must_reject f at_ o = false -> fa = None -> e = EInvalidDateTime)) /\
+    (exists e, r = Err e /\ (must_reject f at_ o = false -> fa = None -> t_key tc <> KFile -> e = EInvalidDateTime)) /\
     (exists evs, steps s s' evs /\ Forall (blob_ev H) evs) /\
     only_empty_blob_added H (s_store s) (s_store s').
 Proof. exact bad_created_no_manifest. Qed.
@@ -103,7 +103,7 @@ Theorem C19_malformed_created_no_manifest :
   forall f tc fa s at_ o now s' r v,
     ann_get (created_key f) (o_ann o) = Some v -> ~ RFC3339 v ->
     pack marshal H f tc fa s at_ o now = (s', r) ->
-    (exists e, r = Err e /\ (must_reject f at_ o = false -> fa = None -> e = EInvalidDateTime)) /\
+    (exists e, r = Err e /\ (must_reject f at_ o = false -> fa = None -> t_key tc <> KFile -> e = EInvalidDateTime)) /\
     (exists evs, steps s s' evs /\ Forall (blob_ev H) evs) /\
     only_empty_blob_added H (s_store s) (s_store s').
 Proof. exact malformed_created_no_manifest. Qed.
